@@ -580,6 +580,160 @@ pub fn gen_allowed_deep(rng: &mut Rng, k: usize) -> String {
     s
 }
 
+
+// ------------------------------------------------------------------ builder matrix
+
+/// A small document around element `e` (inside the wrapper the parser needs for it), carrying all
+/// of the spec's attributes for it plus two others, with one allowed child and text.
+pub fn doc_around(rng: &mut Rng, e: &str) -> String {
+    let mut s = String::new();
+    let (open, close) = match e {
+        "li" => ("<ul>", "</ul>"),
+        "thead" | "tbody" | "caption" => ("<table>", "</table>"),
+        "tr" => ("<table><tbody>", "</tbody></table>"),
+        "th" | "td" => ("<table><tbody><tr>", "</tr></tbody></table>"),
+        "summary" => ("<details>", "</details>"),
+        _ => ("", ""),
+    };
+    s.push_str(open);
+    s.push('<');
+    s.push_str(e);
+    let mut attrs: Vec<&str> = spec::ATTRS.iter().filter(|(el, _)| *el == e).flat_map(|(_, a)| a.iter().copied()).collect();
+    attrs.push("class");
+    attrs.push("title");
+    attrs.dedup();
+    rng.shuffle(&mut attrs);
+    for a in attrs {
+        let v = match a {
+            "href" => pick(rng, &["https://x/y", "matrix:u/a:b", "tel:1", "javascript:x", "data:x"]).to_string(),
+            "src" => pick(rng, &["mxc://s/m", "http://x/y", "data:x"]).to_string(),
+            "class" => pick(rng, &["language-rust x", "language-a language-b", "x", "language-r y language-s"]).to_string(),
+            _ => attr_value(rng, a),
+        };
+        write_attr(rng, &mut s, a, &v);
+    }
+    s.push('>');
+    if !VOID.contains(&e) {
+        let inner = match e {
+            "table" => "<tbody><tr><td>c</td></tr></tbody>",
+            "thead" | "tbody" => "<tr><td>c</td></tr>",
+            "tr" => "<td>c</td>",
+            "ul" | "ol" => "<li>c</li>",
+            _ => "t<em>c</em>",
+        };
+        s.push_str(inner);
+        s.push_str(&format!("</{e}>"));
+    }
+    s.push_str(close);
+    s.push_str("<i>after</i>");
+    s
+}
+
+/// Every list method of the builder on every name the spec lists (and a few it does not), alone
+/// and in the combinations whose precedence the documentation fixes: remove / ignore / allow of
+/// each element; remove / allow of each attribute of each element; deny / allow of schemes with an
+/// attribute before and after the URI attribute; remove / allow of class patterns.
+pub fn builder_matrix(rng: &mut Rng, out: &mut Vec<(Cfg, String)>) {
+    let n = |v: &[&str]| -> Names { v.iter().map(|s| s.to_string()).collect() };
+    for mode in [0u8, 1, 2] {
+        // elements
+        for e in spec::ELEMENTS.iter().copied().chain(["font", "strike", "x-foo", "script", "center"]) {
+            let doc = doc_around(rng, e);
+            for k in 0..6 {
+                let mut c = Cfg::mode(mode);
+                match k {
+                    0 => c.remove_elements = Some(n(&[e])),
+                    1 => c.ignore_elements = Some(n(&[e])),
+                    2 => {
+                        c.remove_elements = Some(n(&[e, "u"]));
+                        c.ignore_elements = Some(n(&["b", e]));
+                        c.allow_elements = Some((false, n(&[e])));
+                    }
+                    3 => {
+                        c.ignore_elements = Some(n(&[e]));
+                        c.allow_elements = Some((true, n(&[e, "i"])));
+                    }
+                    4 => c.allow_elements = Some((true, n(&[e, "em"]))),
+                    _ => c.allow_elements = Some((false, n(&[e]))),
+                }
+                c.rrf = rng.chance(1, 4);
+                out.push((c, doc.clone()));
+            }
+        }
+        // attributes
+        for (el, attrs) in spec::ATTRS {
+            for a in attrs.iter().copied().chain(["title", "class"]) {
+                let doc = doc_around(rng, el);
+                for k in 0..4 {
+                    let mut c = Cfg::mode(mode);
+                    match k {
+                        0 => c.remove_attrs = Some(vec![(el.to_string(), n(&[a]))]),
+                        1 => {
+                            c.remove_attrs = Some(vec![(el.to_string(), n(&[a]))]);
+                            c.allow_attrs = Some((false, vec![(el.to_string(), n(&[a, "title"]))]));
+                        }
+                        2 => c.allow_attrs = Some((true, vec![(el.to_string(), n(&[a]))])),
+                        _ => c.allow_attrs = Some((false, vec![(el.to_string(), n(&[a]))])),
+                    }
+                    out.push((c, doc.clone()));
+                }
+            }
+        }
+        // schemes: the URI attribute alone, after an attribute that sorts earlier, before one that sorts later
+        for (el, attr, before, after) in [("a", "href", "class=\"x\"", "target=\"_blank\""), ("img", "src", "alt=\"a\"", "title=\"t\"")] {
+            for scheme in ["https", "javascript", "tel", "matrix", "mxc", "data"] {
+                let close = if el == "a" { "t</a>" } else { "" };
+                let docs = [
+                    format!("<{el} {attr}=\"{scheme}:x\">{close}"),
+                    format!("<{el} {before} {attr}=\"{scheme}:x\">{close}"),
+                    format!("<{el} {attr}=\"{scheme}:x\" {after}>{close}"),
+                    format!("<{el} {before} {attr}=\"{scheme}:x\" {after}>{close}"),
+                ];
+                let sch = |l: &[&str]| -> Schemes { vec![(el.to_string(), vec![(attr.to_string(), n(l))])] };
+                for k in 0..5 {
+                    let mut c = Cfg::mode(mode);
+                    match k {
+                        0 => c.deny_schemes = Some(sch(&[scheme])),
+                        1 => {
+                            c.deny_schemes = Some(sch(&["x-other", scheme]));
+                            c.allow_schemes = Some((false, sch(&[scheme, "https"])));
+                        }
+                        2 => c.allow_schemes = Some((true, sch(&[scheme]))),
+                        3 => c.allow_schemes = Some((false, sch(&[scheme]))),
+                        _ => c.allow_schemes = Some((true, sch(&["tel"]))),
+                    }
+                    out.push((c.clone(), docs[rng.below(4)].clone()));
+                    out.push((c, docs[rng.below(4)].clone()));
+                }
+            }
+        }
+        // classes
+        for pat in ["language-r*", "x", "*", "language-?", "lang*"] {
+            for val in ["language-rust x", "language-a language-b", "x", "language-r y language-s", "language-a x language-b"] {
+                let doc = format!("<code class=\"{val}\">c</code><span class=\"{val}\">s</span>");
+                for k in 0..4 {
+                    let mut c = Cfg::mode(mode);
+                    let pe = |l: &[&str]| -> PerEl { vec![("code".to_string(), n(l)), ("span".to_string(), n(l))] };
+                    match k {
+                        0 => c.remove_classes = Some(pe(&[pat])),
+                        1 => {
+                            c.remove_classes = Some(pe(&[pat]));
+                            c.allow_classes = Some((false, pe(&[pat, "x"])));
+                            c.allow_attrs = Some((false, vec![("span".to_string(), n(&["class"]))]));
+                        }
+                        2 => c.allow_classes = Some((true, pe(&[pat]))),
+                        _ => {
+                            c.allow_classes = Some((false, pe(&[pat])));
+                            c.allow_attrs = Some((false, vec![("span".to_string(), n(&["class"]))]));
+                        }
+                    }
+                    out.push((c, doc.clone()));
+                }
+            }
+        }
+    }
+}
+
 // ------------------------------------------------------------------ configurations
 
 const CFG_ELEMS: &[&str] = &[
